@@ -381,7 +381,7 @@ def check_wiring(prog, rep):
     for n in walk_no_nested(g.node):
         if isinstance(n, ast.Assign) and len(n.targets) == 1 and isinstance(n.targets[0], ast.Name):
             gdefs.setdefault(n.targets[0].id, []).append(n.value)
-    zips = [n for n in ast.walk(g.node) if isinstance(n, ast.Call) and dump(n.func) == "zip" and len(n.args) == 2 and isinstance(n.args[0], ast.List)
+    zips = [n for n in ast.walk(g.node) if isinstance(n, ast.Call) and dump(n.func) == "zip" and len(n.args) == 2 and isinstance(n.args[0], (ast.List, ast.Tuple))
             and all(isinstance(e, ast.Constant) and isinstance(e.value, str) for e in n.args[0].elts)]
     verdict = "ok" if len(zips) >= 1 else "unrec"
     for z in zips:
@@ -395,7 +395,7 @@ def check_wiring(prog, rep):
             src = gdefs.get(vals.id, [])
             if not (len(src) >= 1 and any(isinstance(v, ast.Call) and dump(v.func) == "self.evalfn" for v in src)):
                 verdict = "unrec" if verdict != "bad" else verdict
-        elif isinstance(vals, ast.List) and len(vals.elts) == 3 and all(isinstance(e, ast.Name) for e in vals.elts):
+        elif isinstance(vals, (ast.List, ast.Tuple)) and len(vals.elts) == 3 and all(isinstance(e, ast.Name) for e in vals.elts):
             for pos, e in enumerate(vals.elts):
                 d = gdefs.get(e.id, [None])[-1]
                 idx = None
